@@ -321,3 +321,6 @@ from contracts.any_units import is_single_subclass_typehint_unit, is_subclass_ty
 UNITS += [is_subclass_typehint_unit("C14"), is_single_subclass_typehint_unit("C14")]
 from contracts.instantiators import add_instantiator_unit, class_instantiator_unit, get_class_instantiator_unit, get_instantiators_unit  # noqa: E402
 UNITS += [add_instantiator_unit("C14"), get_instantiators_unit("C14"), class_instantiator_unit("C14"), get_class_instantiator_unit("C14")]
+
+from contracts.share import carried as _carried  # noqa: E402
+UNITS += _carried("C14")
